@@ -286,7 +286,8 @@ func Main(args []string) {
 			"nonces and commit time stamps come from per-actor deterministic seams (build overlay), which is what makes the ids of the GoGitRepo run and of the mockRepo run comparable",
 			"in-process go-git transport stands for stock git transport",
 			"ids are recomputed by the reference reader (harness/refmodel) as sha256 of the raw JSON elements of the ops blobs read through RepoData",
-			"catalogue values are valid UTF-8; values the editing API refuses are counted and left out; bounded: sequence length, two authors, two replicas",
+			"catalogue values are valid UTF-8 except the class invalid-utf8 (lone 0xff, truncated 0xc3 at the end / in the middle, overlong 0xc0 0x80, UTF-8 encoded surrogate half), which the editing API accepts: for it every id oracle applies in full (ids are the hash of the stored bytes, stable before/after commit, reload, cache, second replica) but the payload is compared as encoding/json stores it (each offending byte -> U+FFFD), because 'unicode preserved' does not speak about byte strings that are not unicode",
+			"other values whose stored form might not survive decode->encode are in the catalogue too (empty non-nil file list [] vs null, empty non-nil metadata map {}); values the editing API refuses are counted and left out; bounded: sequence length, two authors, two replicas",
 		},
 		WallS: time.Since(start).Seconds(), Violations: rep.Viol, Known: rep.KnownSeen()}
 	if err := ev.Write(); err != nil {
